@@ -238,3 +238,48 @@ class MomentBlock:
             M.raises("moment_block/rejects/orders-1d", lambda: f(s1, s2, C, np.array([1, 0, 0])), TypeError)
             M.raises("moment_block/rejects/orders-float", lambda: f(s1, s2, C, np.array([[1.0, 0.0, 0.0]])), TypeError)
             M.raises("moment_block/rejects/shell", lambda: f(s1, None, C, orders), TypeError)
+
+
+class MomentLemmas:
+    """on the real block routine: order (0,0,0) reproduces the overlap block; moving the origin by s changes
+    the moments by the binomial expansion in lower moments  M_o(C+s) = sum_{k<=o} C(o,k) (-s)^(o-k) M_k(C)"""
+
+    function = "gbasis.integrals.moment.Moment.construct_array_contraction (lemmas)"
+
+    def shapes(self, tier):
+        out = [dict(la=1, lb=0, order=[2, 0, 1]), dict(la=1, lb=1, order=[1, 1, 0]), dict(la=0, lb=2, order=[0, 3, 0])]
+        if tier == "thorough":
+            out += [dict(la=2, lb=2, order=[2, 1, 1]), dict(la=3, lb=1, order=[4, 0, 0]), dict(la=0, lb=0, order=[2, 2, 2])]
+        return out
+
+    def run(self, shape, M):
+        from math import comb
+        import itertools
+
+        mom = M.mods["gbasis.integrals.moment"]
+        ov = M.mods["gbasis.integrals.overlap"]
+        s1, s2 = sym_shell_pair(M, shape["la"], shape["lb"], 1, 1, 1, 1)
+        a, b = s1.exps[0], s2.exps[0]
+        P = (s1.coord * a + s2.coord * b) / (a + b)
+        C = M.array(P - M.vec("X", 3))
+        sh = M.vec("S", 3)
+        C2 = M.array(C + sh)
+        o = shape["order"]
+        lower = [list(k) for k in itertools.product(*[range(x + 1) for x in o])]
+        base = mom.Moment.construct_array_contraction(s1, s2, C, np.array(lower))
+        moved = mom.Moment.construct_array_contraction(s1, s2, C2, np.array([o]))
+        zero = mom.Moment.construct_array_contraction(s1, s2, C2, np.array([[0, 0, 0]]))
+        S = ov.Overlap.construct_array_contraction(s1, s2)
+        ssh = M.to_spec(sh)
+        for idx in np.ndindex(*S.shape):
+            M.eq("moment_lemma/order-zero-is-overlap" + tag(idx), zero[idx + (0,)], S[idx])
+            tot = M.SF.num(0)
+            for d, k in enumerate(lower):
+                c = comb(o[0], k[0]) * comb(o[1], k[1]) * comb(o[2], k[2])
+                f = M.SF.num(c)
+                for ax in range(3):
+                    e = o[ax] - k[ax]
+                    if e:
+                        f = f * (-ssh[ax]) ** e
+                tot = tot + (M.to_spec(base)[idx + (d,)] if not M.symbolic else base[idx + (d,)]) * f
+            M.eq("moment_lemma/origin-shift-binomial" + tag(idx), moved[idx + (0,)], tot)
